@@ -214,6 +214,7 @@ func runC15(r *core.Run) {
 	c15Inspection(r, quick)
 	c15MaskedOps(r)
 	c15Attachment(r)
+	c15ViewGraph(r)
 }
 
 // c15Sequences: BFS over (mask, softness) states with predicate calls and Harden/Soften.
